@@ -351,6 +351,10 @@ def to_pytype(t, env=None):
         if env is None:
             from pysmt.environment import get_env
             env = get_env()
+        if len(t) > 2 and t[2]:
+            decl = env.type_manager.Type(t[1], len(t[2]))
+            return env.type_manager.get_type_instance(
+                decl, *[to_pytype(a, env) for a in t[2]])
         return env.type_manager.Type(t[1], 0)
     if k == 'Fun':
         return T.FunctionType(to_pytype(t[1], env),
